@@ -53,6 +53,30 @@ Theorem C35_send_progress : forall fl sh cs pes bes s,
 Proof. exact send_work. Qed.
 Print Assumptions C35_send_progress.
 
+(** Strict progress under ANY size cut of at least one entry: if the first candidate of
+    the message (a cancel, a peer entry or a broadcast entry) is still queued when the send
+    section runs — always the case for a snapshot no producer has overtaken — the send
+    strictly decreases [work], and [work s = 0] is exactly [idle s].  Hence any run of
+    sends from fresh snapshots reaches idle in at most [work s] sends, whatever the size
+    limit.  (Not modelled: the byte size computation that chooses the cut.) *)
+Theorem C35_send_strict_progress : forall fl sh cs pes bes s,
+  (match cs with c :: _ => smem c (cn s) | [] => false end = true \/
+   match pes with (c, pt) :: _ => match zget c (pp s) with Some pt' => went_eqb pt pt' | None => false end | [] => false end = true \/
+   match bes with (c, pt) :: _ => match zget c (bp s) with Some pt' => went_eqb pt pt' | None => false end | [] => false end = true) ->
+  (work (do_step fl sh s (SSend cs pes bes)) < work s)%nat.
+Proof. exact send_strict. Qed.
+Print Assumptions C35_send_strict_progress.
+
+Theorem C35_work_zero_is_idle : forall s, work s = 0%nat <-> idle s.
+Proof. exact work_idle. Qed.
+Print Assumptions C35_work_zero_is_idle.
+
+(** the premise is satisfiable and bites: one pending want-block, cut of one entry *)
+Example C35_strict_witness :
+  let s := run fixed_flags true init [PWant 0 TBlock; PWant 1 TBlock] in
+  work s = 2%nat /\ work (do_step fixed_flags true s (SSend [] [(1, (2147483646, TBlock))] [])) = 1%nat.
+Proof. vm_compute. split; reflexivity. Qed.
+
 (** ---------- the current code ---------- *)
 (** finding C35-1: want c; send; cancel c; want c; cancel c; send (the last send may well
     carry the cancel that was snapshotted before "want c; cancel c" ran inside the
